@@ -1823,9 +1823,35 @@ archive_write_zip_finish_entry(struct archive_write *a)
 {
 	struct zip *zip = a->format_data;
 	int ret;
+	int enc_ret = ARCHIVE_OK;
 #if defined(HAVE_BZLIB_H) || (defined(HAVE_ZSTD_H) && HAVE_ZSTD_compressStream) || HAVE_LZMA_H
 	char finishing;
 #endif
+
+	/* An entry flagged as encrypted that received no data (its size was
+	 * unknown when the header was written) has not started its cipher
+	 * yet.  Emit the encryption header now, so that what follows the
+	 * local header is what the flag promises.  A failure (no passphrase)
+	 * is reported after the compressor has been shut down. */
+	if ((zip->entry_flags & ZIP_ENTRY_FLAG_ENCRYPTED)
+	    && !zip->tctx_valid && !zip->cctx_valid) {
+		switch (zip->entry_encryption) {
+		case ENCRYPTION_TRADITIONAL:
+			enc_ret = init_traditional_pkware_encryption(a);
+			if (enc_ret == ARCHIVE_OK)
+				zip->tctx_valid = 1;
+			break;
+		case ENCRYPTION_WINZIP_AES128:
+		case ENCRYPTION_WINZIP_AES256:
+			enc_ret = init_winzip_aes_encryption(a);
+			if (enc_ret == ARCHIVE_OK)
+				zip->cctx_valid = zip->hctx_valid = 1;
+			break;
+		case ENCRYPTION_NONE:
+		default:
+			break;
+		}
+	}
 
 	switch (zip->entry_compression) {
 #ifdef HAVE_ZLIB_H
@@ -2126,7 +2152,7 @@ archive_write_zip_finish_entry(struct archive_write *a)
 		(uint32_t)zipmin(zip->entry_offset,
 				 ZIP_4GB_MAX));
 
-	return (ARCHIVE_OK);
+	return (enc_ret);
 }
 
 static int
